@@ -214,8 +214,15 @@ func (v *V2) RecoverIndex(buf []byte, startFileOffset uint32, baseEntryOffset in
 		var err error
 		if payloadSize, _, payloadCrc, err = v.ReadHeaderWithValidation(buf, newFileOffset); err != nil {
 			if errors.Is(err, ErrEmptyPayload) {
-				// we might read the end of the segment.
-				break
+				// we might read the end of the segment: then nothing but blank space follows, and
+				// the entries we have found reach the commit offset (a log that is empty from offset 0
+				// is legitimate after a snapshot has been installed)
+				missingCommitted := commitOffset != nil && currentEntryOffset <= *commitOffset &&
+					(len(index) > 0 || baseEntryOffset > 0)
+				if !missingCommitted && isBlank(buf[newFileOffset:]) {
+					break
+				}
+				err = errors.Wrapf(ErrDataCorrupted, "blank record header before the end of the data")
 			}
 			// data corruption
 			if errors.Is(err, ErrOffsetOutOfBounds) || errors.Is(err, ErrDataCorrupted) {
@@ -235,6 +242,15 @@ func (v *V2) RecoverIndex(buf []byte, startFileOffset uint32, baseEntryOffset in
 		currentEntryOffset++
 	}
 	return index, lastCrc, newFileOffset, currentEntryOffset - 1, nil
+}
+
+func isBlank(buf []byte) bool {
+	for _, b := range buf {
+		if b != 0 {
+			return false
+		}
+	}
+	return true
 }
 
 func (v *V2) GetIndexHeaderSize() uint32 {
